@@ -27,7 +27,8 @@ func runScript(id int, seed int64, profile string, cfg Cfg, script []SymStep) Hi
 	defer r.w.close()
 	for _, s := range script {
 		rec := r.exec(s)
-		if rec.Unstable {
+		if rec.Unstable { // not comparable (see nearDeadline, totpTable): the history ends before it
+			r.steps = r.steps[:len(r.steps)-1]
 			break
 		}
 	}
@@ -62,6 +63,7 @@ func genHistory(id int, seed int64, profile string, maxSteps int) History {
 		stop := false
 		for _, s := range g.next() {
 			if rec := r.exec(s); rec.Unstable {
+				r.steps = r.steps[:len(r.steps)-1]
 				stop = true
 				break
 			}
